@@ -315,11 +315,23 @@ def contracts():
         for nb in range(0, 3):
             cs.append(Merge(na, nb))
     cs += [Trim('start'), Trim('end'), SubGetItem('int'), SubGetItem('slice')]
-    return cs
+    from contracts import c19_substring, c19_scope, c19_parser, c19_items, c19_power
+    cs += c19_substring.contracts() + c19_scope.contracts() + c19_parser.contracts() + c19_items.contracts() + c19_power.contracts()
+    return [c for c in cs if c.key() not in PARKED]
+
+
+PARKED = []  # keys of contracts taken out of the check because they fail on the unchanged tree (candidate defects, see notes/)
 
 
 TRUSTED = ['pyvc symbolic executor; small symbolic sets/strings (concrete size, symbolic items); array.trace is uninterpreted (only how often it is called is checked)',
            'characters as integer codes; slice.indices as in CPython']
 ASSUMPTIONS = ['incoming summed sets contain pairwise distinct indices', 'BOUNDED: _trace with at most 4 indices (the loop is unrolled), _merge with at most 2+2 indices']
 NOT_COVERED = ['that the produced array means the index-notation reading (the _FunctionArrayOps backend), operator precedence, function calls, gradients, jump/mean',
-               '_Substring._find / split / partition with bracket levels, the whole of expression_v1']
+               'the whole of expression_v1']
+
+from contracts import c19_substring as _sub, c19_parser as _par, c19_items as _itm, c19_power as _pow, c19_scope as _sco  # noqa: E402
+TRUSTED = TRUSTED + _sub.TRUSTED + _sco.TRUSTED + _par.TRUSTED + _itm.TRUSTED + _pow.TRUSTED
+ASSUMPTIONS = ASSUMPTIONS + _sub.ASSUMPTIONS + _par.ASSUMPTIONS + _itm.ASSUMPTIONS + _pow.ASSUMPTIONS
+NOT_COVERED = NOT_COVERED + _sub.NOT_COVERED + _par.NOT_COVERED + _itm.NOT_COVERED + [
+    '_Parser.parse_signed_int/unsigned_int/unsigned_float; _Substring.__contains__, __iter__ (real bodies executed where used in part 1, facts in part 2)',
+    '_FunctionArrayOps.multiply/append_axes/trace/get_element/add/jump/mean shape bookkeeping and Namespace.__setattr__ (need an n-dimensional numpy model)']
